@@ -28,6 +28,7 @@ import (
 // It is executed inside a worker subprocess so that a panic or os.Exit in
 // the implementation is an observable outcome, not a harness failure.
 type sessionSpec struct {
+	Kind string   `json:"kind"` // "" = transfer session, "parse" = option parser only
 	ID   string   `json:"id"`
 	Arr  string   `json:"arr"`  // pull | push | local | libpull | libpush
 	Args []string `json:"args"` // rsync options
@@ -43,6 +44,7 @@ type sessionSpec struct {
 }
 
 type sessionResult struct {
+	Parse   string `json:"parse,omitempty"` // kind=parse: canonical parser observable
 	ID      string `json:"id"`
 	Err     string `json:"err"`     // "" = success
 	Outcome string `json:"outcome"` // ok | error | died | timeout
@@ -53,6 +55,10 @@ type sessionResult struct {
 
 func runSessionInProcess(sp sessionSpec) (res sessionResult) {
 	res.ID = sp.ID
+	if sp.Kind == "parse" {
+		res.Parse, res.Outcome = parseObservable(sp.Args), "ok"
+		return res
+	}
 	var stderr bytes.Buffer
 	ctx, cancel := context.WithCancel(context.Background())
 	defer cancel()
@@ -185,6 +191,8 @@ func sessionWorkerMain() {
 				res := runSessionInProcess(sp)
 				res.Elapsed = int(time.Since(t0) / time.Millisecond)
 				b, _ := json.Marshal(res)
+				// the implementation may print to stdout (e.g. --help): mark result lines
+				out.WriteString("\n@@RES@@")
 				out.Write(b)
 				out.WriteByte('\n')
 				out.Flush()
@@ -263,8 +271,17 @@ func (p *sessionPool) run(sp sessionSpec) sessionResult {
 	}
 	ch := make(chan rd, 1)
 	go func() {
-		l, err := w.out.ReadBytes('\n')
-		ch <- rd{l, err}
+		for {
+			l, err := w.out.ReadBytes('\n')
+			if bytes.HasPrefix(l, []byte("@@RES@@")) {
+				ch <- rd{l[len("@@RES@@"):], nil}
+				return
+			}
+			if err != nil {
+				ch <- rd{nil, err}
+				return
+			}
+		}
 	}()
 	to := time.Duration(sp.TimeoutMs) * time.Millisecond
 	if to == 0 {
